@@ -84,6 +84,8 @@ macro_rules! step_any {
         }
     };
 }
+step_any!(step_any_n2, 2, 10);
+step_any!(step_any_n3, 3, 10);
 step_any!(step_any_n4, 4, 10);
 step_any!(step_any_n5, 5, 10);
 step_any!(step_any_n6, 6, 11);
@@ -108,6 +110,28 @@ macro_rules! step_class {
         }
     };
 }
+// quick tier: <= 5 bytes per class
+step_class!(c5_star, b'*', 5, 10);
+step_class!(c5_colon, b':', 5, 10);
+step_class!(c5_query, b'?', 5, 10);
+step_class!(c5_semicolon, b';', 5, 10);
+step_class!(c5_newline, b'\n', 5, 10);
+step_class!(c5_comma, b',', 5, 10);
+step_class!(c5_space, b' ', 5, 10);
+step_class!(c5_tab, b'\t', 5, 10);
+step_class!(c5_alpha_lower, b'a', 5, 10);
+step_class!(c5_alpha_upper, b'Z', 5, 10);
+step_class!(c5_digit, b'7', 5, 10);
+step_class!(c5_minus, b'-', 5, 10);
+step_class!(c5_plus, b'+', 5, 10);
+step_class!(c5_dot, b'.', 5, 10);
+step_class!(c5_hash, b'#', 5, 10);
+step_class!(c5_dquote, b'"', 5, 10);
+step_class!(c5_squote, b'\'', 5, 10);
+step_class!(c5_paren, b'(', 5, 10);
+step_class!(c5_other, b'$', 5, 10);
+step_class!(c5_nonascii, 0xC3, 5, 10);
+// thorough tier: <= 8 bytes per class
 step_class!(class_star, b'*', 8, 12);
 step_class!(class_colon, b':', 8, 12);
 step_class!(class_query, b'?', 8, 12);
